@@ -301,7 +301,35 @@ func oversizeStrings(rt *rapid.T) ([]byte, string) {
 	return gen.JPEGStream(segs, tail), fmt.Sprintf("%d segments x %d string tags of count %d, %d bytes present (duplicate ids %v)", nseg, ntags, count, present, dup)
 }
 
+// xmpLongToken: a packet in which one token (element text, attribute value, white-space run, tag name) is far longer
+// than the reader's window: whatever the parser does with it, the cost must stay proportional to the packet.
+func xmpLongToken(rt *rapid.T) ([]byte, string) {
+	n := rapid.SampledFrom([]int{2000, 20000, 100000, 300000, 1000000}).Draw(rt, "toklen")
+	where := rapid.SampledFrom([]string{"element-text", "attribute-value", "white-space", "tag-name", "array-item"}).Draw(rt, "where")
+	long := strings.Repeat("v", n)
+	head := "<x:xmpmeta xmlns:x=\"adobe:ns:meta/\"><rdf:RDF xmlns:rdf=\"http://www.w3.org/1999/02/22-rdf-syntax-ns#\"><rdf:Description rdf:about=\"\" xmlns:dc=\"http://purl.org/dc/elements/1.1/\" xmlns:tiff=\"http://ns.adobe.com/tiff/1.0/\""
+	tail := "</rdf:Description></rdf:RDF></x:xmpmeta>"
+	var body string
+	switch where {
+	case "element-text":
+		body = head + "><tiff:Make>" + long + "</tiff:Make>" + tail
+	case "attribute-value":
+		body = head + " tiff:Make=\"" + long + "\">" + tail
+	case "white-space":
+		body = head + ">" + strings.Repeat(" ", n) + "<tiff:Make>x</tiff:Make>" + tail
+	case "tag-name":
+		body = head + "><tiff:" + long + ">x</tiff:" + long + ">" + tail
+	default:
+		body = head + "><dc:description><rdf:Alt><rdf:li xml:lang=\"x-default\">" + long + "</rdf:li></rdf:Alt></dc:description>" + tail
+	}
+	return []byte(body), fmt.Sprintf("%s of %d bytes", where, n)
+}
+
 func genCase(rt *rapid.T) Case {
+	if gen.Chance(rt, "xmp-long-token?", 0.05) {
+		data, origin := xmpLongToken(rt)
+		return Case{Entry: "ParseXmp", Input: data, Origin: "xmp-long-token", Ops: []string{origin}, Big: true}
+	}
 	if gen.Chance(rt, "oversize-strings?", 0.06) {
 		data, origin := oversizeStrings(rt)
 		return Case{Entry: rapid.SampledFrom([]string{"Decode", "DecodeJPEG", "ScanJPEG"}).Draw(rt, "entry"), Input: data, Origin: "oversize-strings", Ops: []string{origin}, Big: true}
